@@ -9,7 +9,9 @@ import export as X
 import cert as C
 import gen as G
 
-THEOREMS = ["Adc.tree_flat", "Adc.treeOK_sound"]
+THEOREMS = ["Adc.tree_flat", "Adc.treeOK_sound", "Adc.splitCT_perm", "Adc.splitCT_nodup", "Adc.mem_splitCT_target",
+            "Adc.mem_splitCT_contracted", "Adc.splitCT_keeps_targets", "Adc.scalOf_total", "Adc.scalOf_mono", "Adc.step_le_single",
+            "Adc.mem_le_comp"]
 SPL = {"occ": "o", "virt": "v", "general": "g"}
 
 
@@ -81,6 +83,55 @@ def true_scaling(c):
         mem[i.space] += 1
     return (sum(comp.values()), comp["general"], comp["virt"], comp["occ"]), \
         (sum(mem.values()), mem["general"], mem["virt"], mem["occ"])
+
+
+PROBE_LOG = []
+
+
+def install_contraction_probe():
+    """records the arguments and the result of every Contraction the code constructs (rebinding a class attribute from
+    the harness process; nothing in /repo is changed)"""
+    from adcgen.generate_code.contraction import Contraction
+    if getattr(Contraction, "_verif_probed", False):
+        return
+    orig = Contraction.__init__
+
+    def probed(self, indices, names, term_target_indices, external_indices=tuple()):
+        orig(self, indices, names, term_target_indices, external_indices)
+        if len(PROBE_LOG) < 4000:
+            PROBE_LOG.append((tuple(tuple(t) for t in indices), tuple(term_target_indices), tuple(external_indices),
+                              tuple(self.contracted), tuple(self.target), self.scaling))
+    Contraction.__init__ = probed
+    Contraction._verif_probed = True
+
+
+def check_probe_log(ctx, label, rep):
+    """tie D for Adc/Scaling.lean: contracted/target split (incl. order) and both scalings of every constructed
+    Contraction against the model stepCT / stepScaling (theorems splitCT_perm, mem_splitCT_target, step_le_single)"""
+    rng = ctx.rng
+    log = list(PROBE_LOG)
+    del PROBE_LOG[:]
+    if len(log) > 12:
+        log = rng.sample(log, 12)
+    for indices, tt, ext, contracted, target, scaling in log:
+        ic = X.IdxCtx()
+        try:
+            for i in [i for t in indices for i in t] + list(tt) + list(ext):
+                ic.note(i)
+            ic.freeze()
+        except X.Unsupported:
+            ctx.skip("unsupported")
+            continue
+        cv = lambda l: [list(ic.conv(i)) for i in l]
+        ans = ctx.drv().ask({"op": "scaling", "ops": [cv(t) for t in indices], "tt": cv(tt), "ext": cv(ext)})
+        ctx.count("contraction_objects_vs_model")
+        got = {"contracted": cv(contracted), "target": cv(target), "comp": list(sc_tuple(scaling.computational)),
+               "mem": list(sc_tuple(scaling.memory))}
+        if any(ans.get(k) != got[k] for k in got):
+            ctx.violation(f"{label}: Contraction(indices={indices}, term targets {tt}, external {ext}) has contracted={contracted} "
+                          f"target={target} scaling={scaling}; the model gives {ans}",
+                          dict(rep, kind="contraction-bookkeeping", lean=ans, code=got))
+            return
 
 
 def sc_tuple(sc):
@@ -193,7 +244,9 @@ def run(ctx):
     from adcgen import Expr, optimize_contractions, unoptimized_contraction
     rng = ctx.rng
     n = ctx.pick(500, 8000)
+    install_contraction_probe()
     for it in range(n):
+        del PROBE_LOG[:]
         spec, spins = random_term(ctx)
         try:
             sy = G.build_term(spec)
@@ -244,6 +297,7 @@ def run(ctx):
             ctx.violation(f"optimize_contractions raised {type(ex).__name__}: {ex}", rep)
             continue
         check_scheme(ctx, "optimize_contractions", e, term, sch, tobjs, limits, rep, unopt=un)
+        check_probe_log(ctx, "optimize_contractions", rep)
         if it < 3:
             ctx.sample({"term": str(e), "target": tstr if use_t else None, "limits": limits, "scheme": [str(c)[:200] for c in sch]})
 
